@@ -156,7 +156,7 @@ var streamAssumptions = []string{
 func TestC13QUIC(t *testing.T) {
 	env := vrun.LoadEnv()
 	grid := streamGrid()
-	variants := env.Pick(4, 12)
+	variants := env.Pick(4, 20)
 	meta := vrun.Meta{
 		Property: "C13", Workload: "TestC13QUIC", Total: len(grid) * variants,
 		Rule: "case = (type {per-message, context-takeover} x level 0..9, variant) over loopback UDP, one QUIC connection per case, ephemeral self-signed certificate. Even variants: one writer per side; odd: 1-8 " +
@@ -507,7 +507,7 @@ var wtKinds = []string{"library<->library", "library-client<->raw-server", "raw-
 func TestC13WebTransport(t *testing.T) {
 	env := vrun.LoadEnv()
 	grid := streamGrid()
-	variants := env.Pick(6, 12)
+	variants := env.Pick(6, 24)
 	meta := vrun.Meta{
 		Property: "C13", Workload: "TestC13WebTransport", Total: len(grid) * variants,
 		Rule: "case = (type x level 0..9, variant) over loopback UDP against one shared webtransport-go server (ephemeral self-signed certificate, one session per case). variant mod 3 selects the arrangement: " +
